@@ -344,6 +344,9 @@ func (w *Witness) Update(pk *gabikeys.PublicKey, update *Update) error {
 
 // Verify the witness against its SignedAccumulator.
 func (w *Witness) Verify(pk *gabikeys.PublicKey) error {
+	if w.SignedAccumulator == nil || w.U == nil || w.E == nil {
+		return errors.New("malformed witness")
+	}
 	_, err := w.SignedAccumulator.UnmarshalVerify(pk)
 	if err != nil {
 		return err
